@@ -109,7 +109,9 @@ def add_signature_to_docstring(f, include_self=False, kw_only_args={}):
     """
 
     def decorate(f_wrapper):
-        args, varargs, keywords, defaults = inspect.getargspec(f)
+        args, varargs, keywords, defaults = getattr(
+            inspect, "getfullargspec", getattr(inspect, "getargspec", None)
+        )(f)[:4]
 
         # Simplifies later logic
         if defaults is None:
